@@ -111,6 +111,13 @@ def generate(rng, tier):
             c["ids"] = ids = []
             c["no_defaults"] = True
         if i and rng.random() < 0.12:
+            # a user's palette class derived (plain Python inheritance) from another palette class: no table and
+            # no parents of its own, the base's ones apply; some accessors re-bound
+            c["pybase"] = comps[rng.randrange(i)]["name"]
+            c["ids"] = ids = []
+            c["parents"] = []
+            c["no_defaults"] = True
+        if i and rng.random() < 0.12:
             # two different component classes that print alike (same module, same name: made by a factory)
             c["cls_name"] = comps[rng.randrange(i)]["name"]
         comps.append(c)
@@ -258,11 +265,17 @@ def simplify(trace):
         if c["name"] in used:
             needed.add(c["name"])
             needed.update(c["parents"])
+    for _ in range(len(trace["components"])):
+        for c in trace["components"]:
+            if c["name"] in needed:
+                needed.update(c["parents"])
+                if c.get("pybase"):
+                    needed.add(c["pybase"])
     for c in trace["components"]:
         if c["name"] not in needed:
             yield dict(trace, components=[x for x in trace["components"] if x is not c])
     for c in trace["components"]:
-        if c["parents"]:
+        if c["parents"] and not c.get("pybase"):
             yield dict(trace, components=[dict(x, parents=[]) if x is c else x for x in trace["components"]])
         fl = flatten(c["defaults"] or {})
         if len(fl) > 1:
@@ -352,14 +365,22 @@ class World:
         spec = self.comp_spec[name]
         ns = {"SYNTAX_DEFAULTS": spec["defaults"],
               "PARENT_PALETTES": [self.cls(p) for p in spec["parents"] if p in self.comp_spec] or None}
+        bases = (color.Palette,)
+        if spec.get("pybase") in self.comp_spec:
+            ns = {"__doc__": "derived from another palette class"}
+            bases = (self.cls(spec["pybase"]),)
         for acc, sid in spec["accessors"].items():
             ns[acc] = color.ConfColor(sid)
-        return self.sut(f"class {name}", type, spec.get("cls_name", name), (color.Palette,), ns)
+        return self.sut(f"class {name}", type, spec.get("cls_name", name), bases, ns)
 
     def accessors(self, name):
         if name in REAL:
             return REAL[name][1]
-        acc = dict(self.comp_spec[name]["accessors"])
+        spec = self.comp_spec[name]
+        acc = {}
+        if spec.get("pybase") in self.comp_spec:
+            acc.update(self.accessors(spec["pybase"]))
+        acc.update(spec["accessors"])
         acc["text"] = "TEXT"
         return acc
 
@@ -371,6 +392,11 @@ class World:
             return out
         seen.add(name)
         c = self.cls(name)
+        spec = self.comp_spec.get(name)
+        if spec and spec.get("pybase") in self.comp_spec:
+            # everything is inherited from the base class: its parents, then its table - under this class's name
+            inherited = self.comp_defaults(spec["pybase"], set())
+            return out + inherited[:-1] + [(name, inherited[-1][1])]
         for p in (getattr(c, "PARENT_PALETTES", None) or ()):
             pname = next((n for n, k in self.classes.items() if k is p), None)
             if pname is None:
@@ -393,6 +419,8 @@ class World:
         seen.add(name)
         spec = self.comp_spec[name]
         if spec.get("bad") and spec["bad"]["id"] not in reg.items:
+            return True
+        if spec.get("pybase") and self.broken_for(reg, spec["pybase"], seen):
             return True
         return any(self.broken_for(reg, p, seen) for p in spec.get("parents", ()))
 
@@ -784,10 +812,11 @@ def execute(trace, rng):
             w.stats["reports_compared"] += 1
             if "error" in ref:
                 raise Violation("report", "reference-failed", ref["error"])
-            if normalise_report(rep) != normalise_report(ref["text"]):
+            fam = report_family(trace["components"])
+            if normalise_report(rep, fam) != normalise_report(ref["text"], fam):
                 raise Violation("report", "order-dependent-report",
                                 "make_report() differs from the report after canonical-order delivery:\n"
-                                + first_diff(normalise_report(rep), normalise_report(ref["text"])))
+                                + first_diff(normalise_report(rep, fam), normalise_report(ref["text"], fam)))
             log.add("report", hashlib.blake2b(rep.encode(), digest_size=8).hexdigest())
     except _Skip:
         pass
@@ -837,9 +866,27 @@ def canonical(delivered):
     return {"comps": comps, "items": {k2: items[k2] for k2 in sorted(items)}}
 
 
-def normalise_report(text):
-    # the source column names the registering party; synthetic classes print their module path
+def normalise_report(text, family=()):
+    # the source column names the registering party; synthetic classes print their module path.
+    # family: printed names of classes that deliver one and the same table (a palette class and the classes derived
+    # from it): which of them registers an item first is a matter of order, and is not a colour
+    import re
+    if family:
+        pat = re.compile(r"<- <class '[\w.]*\.(?:" + "|".join(sorted(map(re.escape, family))) + r")'>")
+        text = pat.sub("<- <class of the family>", text)
     return "\n".join(line.rstrip() for line in text.split("\n"))
+
+
+def report_family(components):
+    fam = set()
+    for c in components:
+        if c.get("pybase"):
+            fam.add(c.get("cls_name", c["name"]))
+            for b in components:
+                if b["name"] == c["pybase"]:
+                    fam.add(b.get("cls_name", b["name"]))
+    # (derivation chains: a base that is itself derived)
+    return fam
 
 
 def first_diff(a, b):
